@@ -173,7 +173,7 @@ theorem C01_join (env : Env) (d l : J) (sep : String) (items : List J) (ss : Lis
     Spec.resolve env (.obj [("Fn::Join", .arr [d, l])]) =
       some (.str (String.ofList (join sep.toList (ss.map String.toList)))) := by
   rw [resolve_fn _ _ _ (by decide), eachOf_two, hd, hl]
-  unfold applyFn; simp only [ro_join]; simp [hs]
+  unfold applyFn; simp only [ro_join]; simp [pyStrsOf_of_strsOf items ss hs]
 
 /-- C01_split: the pieces of the resolved string between occurrences of the (non-empty) delimiter -/
 theorem C01_split (env : Env) (d s : J) (sep src : String)
